@@ -1,7 +1,8 @@
 (* C15 — proofs about the proxyFrac state machine (ModelProxy.v). *)
 From Coq Require Import List Bool Arith Lia.
 Import ListNotations.
-From C15 Require Import Model ModelPar ModelProxy.
+From VLib Require Import CaseLib.
+From C15 Require Import Model ModelPar ModelPL ModelUse ModelProxy CaseDefs.
 
 (* ------------------------------------------------------------------ one fraction: finite case analysis *)
 
@@ -212,4 +213,49 @@ Proof.
     unfold seal1; simpl. intro Hh. rewrite Hh. reflexivity.
   - destruct ev; try discriminate H. inversion H; subst. repeat split; reflexivity.
   - destruct q; try discriminate H. destruct m; try discriminate H. inversion H; subst. repeat split; reflexivity.
+Qed.
+
+(* ------------------------------------------------------------------ the driver's scripts stay inside the model *)
+
+Lemma drain_inv : forall fuel p q, pinv p -> pinv (fst (drain fuel p q)).
+Proof.
+  induction fuel as [|f IH]; intros p q H; [exact H|].
+  destruct q as [|h r]; [exact H|]. simpl.
+  pose proof (pstep_inv p (PSuicide h) H) as H'.
+  destruct (nth_error (p_fr (pstep false p (PSuicide h))) h) as [pf|]; [|apply IH; exact H'].
+  destruct (xf_k pf); try (apply IH; exact H'). exact H'.
+Qed.
+
+Lemma fold_pstep_inv evs : forall p, pinv p -> pinv (fold_left (pstep false) evs p).
+Proof. exact (prun_inv evs). Qed.
+
+Lemma script_step_inv s e : pinv (ss_p s) -> pinv (ss_p (script_step s e)).
+Proof.
+  intro H. destruct e as [|i|i|i|k|]; unfold script_step.
+  - apply pstep_inv; exact H.
+  - cbn [fold_left ss_p]. apply pstep_inv, pstep_inv; exact H.
+  - match goal with |- context [drain ?f ?p ?q] => pose proof (drain_inv f p q (pstep_inv _ _ H)) as D; destruct (drain f p q) end.
+    exact D.
+  - apply pstep_inv; exact H.
+  - match goal with |- context [drain ?f ?p ?q] => pose proof (drain_inv f p q (pstep_inv _ _ H)) as D; destruct (drain f p q) end.
+    exact D.
+  - cbn [fold_left ss_p]. repeat apply pstep_inv; exact H.
+Qed.
+
+Lemma script_init_inv n : pinv (ss_p (script_init n)).
+Proof.
+  assert (A : forallb pf_initial (repeat pf_loaded_sealed n ++ [pf_new]) = true).
+  { induction n as [|m IH]; [reflexivity|]. simpl. exact IH. }
+  apply initial_inv.
+  - unfold p_initial. simpl. rewrite A. reflexivity.
+  - apply initial_listed. exact A.
+Qed.
+
+(* the model satisfies the executable statement of the correspondence class: alive after every step *)
+Theorem script_alive : forall n l, forallb po_alive (script_obs (script_init n) l) = true.
+Proof.
+  intros n l. generalize (script_init n) (script_init_inv n).
+  induction l as [|e r IH]; intros s H; [reflexivity|].
+  simpl. pose proof (script_step_inv s e H) as H'.
+  destruct H' as [Hf [Hn Hp]]. rewrite Hn. simpl. apply IH. split; [|split]; assumption.
 Qed.
